@@ -62,189 +62,182 @@ Proof. intros r proxy l; destruct r; reflexivity. Qed.
 
 (* ------------------------------------------------------------------ interleaved reads *)
 
-(* per-thread invariant, relative to the leader's and the follower's current revisions *)
-Definition tinv (L F : N) (x : thr) : Prop :=
+(* per-thread invariant, relative to the leader's revision L and the syncer's installed revision S *)
+Definition tinv (L S : N) (x : thr) : Prop :=
   t_joined x = false ->
   match t_pc x with
   | PInit => True
   | PJoined => False                           (* a waiting thread is marked as having joined *)
   | PBegun | PWaitLeader => t_begin x <= L
   | PHandled v => t_begin x <= v /\ v <= L
-  | PGot v => t_begin x <= v
-  | PSet => t_begin x <= F
+  | PGot v | PBlocked v | PInstalling v => t_begin x <= v
+  | PSet => t_begin x <= S
   | PDone => t_begin x <= t_scan x
   end.
 
-Lemma tinv_mono L F L' F' x : L <= L' -> F <= F' -> tinv L F x -> tinv L' F' x.
-Proof.
-  unfold tinv; intros HL HF H Hj. specialize (H Hj). destruct (t_pc x); try exact H; try lia.
-Qed.
+(* whatever the thread did: it began no later than now; a thread inside SetCurrentRevision(v) has v > synced *)
+Definition winv (L S : N) (x : thr) : Prop :=
+  match t_pc x with
+  | PInit => True
+  | PInstalling v => t_begin x <= L /\ S < v
+  | _ => t_begin x <= L
+  end.
 
-Definition sinv (s : isys) : Prop := tinv (i_leader s) (i_frev s) (i_a s) /\ tinv (i_leader s) (i_frev s) (i_b s).
+Definition installing (x : thr) : Prop := match t_pc x with PInstalling _ => True | _ => False end.
 
-(* "no set has lowered the revision so far", or sets are monotone by construction *)
-Definition nl (mono : bool) (s : isys) : Prop := mono = true \/ lowering_set s = false.
-
-Lemma lowering_app l x : existsb (fun x : tid * N * N => let '(_, before, v) := x in v <? before) (l ++ [x]) = false ->
-  existsb (fun x : tid * N * N => let '(_, before, v) := x in v <? before) l = false /\ (let '(_, before, v) := x in v <? before) = false.
-Proof.
-  rewrite existsb_app. cbn. rewrite orb_false_r. intros H. apply orb_false_iff in H. exact H.
-Qed.
-
-Lemma get_set_same s t x : get_thr (set_thr s t x) t = x.
-Proof. destruct t; reflexivity. Qed.
-Lemma get_set_other s t x : get_thr (set_thr s t x) (other t) = get_thr s (other t).
-Proof. destruct t; reflexivity. Qed.
-
-Lemma sinv_get s : sinv s <-> (forall t, tinv (i_leader s) (i_frev s) (get_thr s t)).
-Proof.
-  unfold sinv; split.
-  - intros [Ha Hb] []; assumption.
-  - intros H; split; [apply (H TA) | apply (H TB)].
-Qed.
-
-Lemma step_sets mono share s l : exists ext, i_sets (step mono share s l) = i_sets s ++ ext.
-Proof.
-  destruct l as [|t]; [exists []; cbn; rewrite app_nil_r; reflexivity|].
-  unfold step. destruct (t_pc (get_thr s t));
-    try (exists []; rewrite app_nil_r; destruct t; reflexivity).
-  - destruct (i_flight s), share; exists []; rewrite app_nil_r; destruct t; reflexivity.
-  - exists []; rewrite app_nil_r.
-    destruct t; cbn; [destruct (t_pc (i_b s))|destruct (t_pc (i_a s))]; reflexivity.
-  - eexists; destruct t; reflexivity.
-Qed.
-
-Lemma step_nl mono share s l : nl mono (step mono share s l) -> nl mono s.
-Proof.
-  intros [Hm|Hl]; [left; exact Hm|right].
-  destruct (step_sets mono share s l) as [ext E]. unfold lowering_set in *. rewrite E, existsb_app in Hl.
-  apply orb_false_iff in Hl. apply Hl.
-Qed.
-
-Lemma step_preserves mono share s l :
-  nl mono (step mono share s l) -> sinv s -> sinv (step mono share s l).
-Proof.
-  intros Hnl Hinv. pose proof (step_nl _ _ _ _ Hnl) as Hnl0. destruct l as [|t].
-  - destruct Hinv as [Ha Hb]. split; cbn; eapply tinv_mono; try eassumption; lia.
-  - pose proof (proj1 (sinv_get s) Hinv) as Hall.
-    pose proof (Hall t) as Ht. pose proof (Hall (other t)) as Ho.
-    unfold step in *. destruct (t_pc (get_thr s t)) eqn:Epc.
-    + (* PInit: begin := leader *)
-      apply sinv_get. intros u.
-      destruct t, u; cbn; try assumption; unfold tinv; cbn; intros _; lia.
-    + (* PBegun *)
-      unfold tinv in Ht; rewrite Epc in Ht.
-      destruct (i_flight s); [destruct share|]; apply sinv_get; intros u;
-        destruct t, u; cbn in *; try assumption; unfold tinv; cbn; try (intros Hj; discriminate Hj); exact Ht.
-    + (* PWaitLeader: the leader's handler reads its revision *)
-      unfold tinv in Ht; rewrite Epc in Ht.
-      apply sinv_get; intros u; destruct t, u; cbn in *; try assumption; unfold tinv; cbn; intros Hj; specialize (Ht Hj); lia.
-    + (* PHandled: the reply arrives; a joiner wakes with the same value *)
-      unfold tinv in Ht; rewrite Epc in Ht.
-      apply sinv_get; intros u.
-      destruct t, u; cbn in *.
-      * destruct (t_pc (i_b s)); cbn; unfold tinv; cbn; intros Hj; specialize (Ht Hj); lia.
-      * destruct (t_pc (i_b s)) eqn:Eb; cbn; try exact Ho.
-        unfold tinv; cbn. unfold tinv in Ho. rewrite Eb in Ho. intros Hj. destruct (Ho Hj).
-      * destruct (t_pc (i_a s)) eqn:Ea; cbn; try exact Ho.
-        unfold tinv; cbn. unfold tinv in Ho. rewrite Ea in Ho. intros Hj. destruct (Ho Hj).
-      * destruct (t_pc (i_a s)); cbn; unfold tinv; cbn; intros Hj; specialize (Ht Hj); lia.
-    + (* PJoined: blocked *)
-      exact Hinv.
-    + (* PGot v: SetCurrentRevision *)
-      assert (Hle : i_frev s <= (if mono then N.max (i_frev s) v else v)).
-      { destruct Hnl as [Hm|Hl].
-        - subst mono. lia.
-        - unfold lowering_set in Hl. destruct t; cbn in Hl;
-            rewrite existsb_app in Hl; apply orb_false_iff in Hl; destruct Hl as [_ Hv]; cbn in Hv;
-            rewrite orb_false_r in Hv; apply N.ltb_ge in Hv; destruct mono; lia. }
-      unfold tinv in Ht; rewrite Epc in Ht.
-      apply sinv_get; intros u. destruct t, u; cbn in *.
-      * unfold tinv; cbn; intros Hj; specialize (Ht Hj). destruct mono; lia.
-      * eapply tinv_mono; [apply N.le_refl|exact Hle|exact Ho].
-      * eapply tinv_mono; [apply N.le_refl|exact Hle|exact Ho].
-      * unfold tinv; cbn; intros Hj; specialize (Ht Hj). destruct mono; lia.
-    + (* PSet: load the read revision and scan *)
-      unfold tinv in Ht; rewrite Epc in Ht.
-      apply sinv_get; intros u; destruct t, u; cbn in *; try assumption; unfold tinv; cbn; intros Hj; specialize (Ht Hj); lia.
-    + exact Hinv.
-Qed.
+Record sinv (s : isys) : Prop := mkSinv {
+  si_a : tinv (i_leader s) (i_synced s) (i_a s);
+  si_b : tinv (i_leader s) (i_synced s) (i_b s);
+  si_wa : winv (i_leader s) (i_synced s) (i_a s);
+  si_wb : winv (i_leader s) (i_synced s) (i_b s);
+  si_sync : i_synced s = 0 \/ i_frev s = i_synced s;
+  si_mutex : match i_mutex s with
+             | None => ~ installing (i_a s) /\ ~ installing (i_b s)
+             | Some TA => ~ installing (i_b s)
+             | Some TB => ~ installing (i_a s)
+             end
+}.
 
 Lemma sinv_init l0 f0 : sinv (i_init l0 f0).
-Proof. split; unfold tinv; cbn; auto. Qed.
+Proof. constructor; cbn; unfold tinv, winv, installing; cbn; auto. Qed.
 
-Lemma run_snoc mono share s ls l : run mono share s (ls ++ [l]) = step mono share (run mono share s ls) l.
+Lemma run_snoc refetch share s ls l : run refetch share s (ls ++ [l]) = step refetch share (run refetch share s ls) l.
 Proof. unfold run. rewrite fold_left_app. reflexivity. Qed.
 
-Lemma run_inv mono share l0 f0 ls :
-  nl mono (run mono share (i_init l0 f0) ls) -> sinv (run mono share (i_init l0 f0) ls).
+Ltac projs := cbn [i_leader i_frev i_synced i_mutex i_flight i_a i_b i_sets t_pc t_begin t_got t_scan t_joined
+                  get_thr set_thr set_flight set_mutex with_pc other tid_eqb] in *.
+
+Ltac crush :=
+  repeat match goal with
+         | H : _ /\ _ |- _ => destruct H
+         | |- _ /\ _ => split
+         end;
+  try tauto; try lia; try discriminate; auto.
+
+Ltac fin :=
+  constructor; unfold tinv, winv, installing; projs;
+  try assumption;
+  try (match goal with |- _ = false -> _ => let Hj := fresh "Hj" in intros Hj; try discriminate Hj end);
+  repeat match goal with H : ?j = false -> _, Hj : ?j = false |- _ => specialize (H Hj) end;
+  repeat (match goal with M : option tid |- _ => destruct M as [[|]|] end);
+  repeat match goal with H : _ \/ _ |- _ => destruct H end;
+  crush.
+
+Lemma step_preserves refetch share s l : sinv s -> sinv (step refetch share s l).
 Proof.
-  induction ls as [|l ls IH] using rev_ind.
-  - intros _. apply sinv_init.
-  - rewrite run_snoc. intros Hnl. apply step_preserves; [exact Hnl|].
-    apply IH. eapply step_nl. exact Hnl.
+  intros [Ha Hb Wa Wb Hs Hm].
+  destruct s as [L F S M FL [pa ba ga sa ja] [pb bb gb sb jb] sets].
+  unfold tinv, winv, installing in *. projs.
+  destruct l as [|[|]].
+  - (* the leader advances *)
+    unfold step; projs. destruct pa, pb; fin.
+  - (* a step of TA *)
+    unfold step, arrive_lock; cbn [get_thr i_a t_pc].
+    destruct pa as [| | |v| |v|v|v| |]; projs.
+    + fin.
+    + destruct FL as [o|]; [destruct share|]; fin.
+    + fin.
+    + destruct pb as [| | |w| |w|w|w| |]; projs; try destruct refetch; projs; destruct FL as [[|]|]; projs; fin.
+    + fin.
+    + destruct M as [[|]|]; projs; [| |destruct (N.ltb_spec S v); projs]; fin.
+    + fin.
+    + assert (HSv : S < v) by crush.
+      destruct pb as [| | |w| |w|w|w| |]; projs; try (destruct (N.ltb_spec v w); projs); fin.
+    + fin.
+    + fin.
+  - (* a step of TB *)
+    unfold step, arrive_lock; cbn [get_thr i_b t_pc].
+    destruct pb as [| | |v| |v|v|v| |]; projs.
+    + fin.
+    + destruct FL as [o|]; [destruct share|]; fin.
+    + fin.
+    + destruct pa as [| | |w| |w|w|w| |]; projs; try destruct refetch; projs; destruct FL as [[|]|]; projs; fin.
+    + fin.
+    + destruct M as [[|]|]; projs; [| |destruct (N.ltb_spec S v); projs]; fin.
+    + fin.
+    + assert (HSv : S < v) by crush.
+      destruct pa as [| | |w| |w|w|w| |]; projs; try (destruct (N.ltb_spec v w); projs); fin.
+    + fin.
+    + fin.
 Qed.
 
-Lemma thr_fresh_of_tinv L F x : tinv L F x -> t_joined x = false -> thr_fresh x = true.
+Lemma run_inv refetch share l0 f0 ls : sinv (run refetch share (i_init l0 f0) ls).
 Proof.
-  unfold tinv, thr_fresh. intros H Hj. specialize (H Hj). destruct (t_pc x); try reflexivity. apply N.leb_le. exact H.
+  induction ls as [|l ls IH] using rev_ind; [apply sinv_init|].
+  rewrite run_snoc. apply step_preserves. exact IH.
 Qed.
 
-(* every read that fetched for itself is fresh, as long as no set lowered the follower's revision *)
-Lemma read_fresh_except : forall l0 f0 ls t,
-  let s := run_code (i_init l0 f0) ls in
-  lowering_set s = false -> t_joined (get_thr s t) = false -> thr_fresh (get_thr s t) = true.
+Lemma sinv_thr_fresh s t : sinv s -> t_joined (get_thr s t) = false -> thr_fresh (get_thr s t) = true.
 Proof.
-  intros l0 f0 ls t s Hl Hj.
-  assert (Hinv : sinv s) by (apply run_inv; right; exact Hl).
-  apply sinv_get with (t := t) in Hinv. eapply thr_fresh_of_tinv; eassumption.
+  intros H Hj. assert (Ht : tinv (i_leader s) (i_synced s) (get_thr s t)) by (destruct t; [apply (si_a _ H)|apply (si_b _ H)]).
+  unfold tinv in Ht. specialize (Ht Hj). unfold thr_fresh. destruct (t_pc (get_thr s t)); try reflexivity. apply N.leb_le. exact Ht.
 Qed.
 
-(* the repaired node: monotone set, no shared flights — every read is fresh, on every schedule *)
-Lemma no_join_without_share : forall l0 f0 ls,
-  let s := run true false (i_init l0 f0) ls in t_joined (i_a s) = false /\ t_joined (i_b s) = false.
+(* with the re-fetch of joiners: only a thread that is still waiting is marked as joined *)
+Lemma refetch_joined_waiting : forall share l0 f0 ls t,
+  let s := run true share (i_init l0 f0) ls in t_joined (get_thr s t) = true -> t_pc (get_thr s t) = PJoined.
 Proof.
-  intros l0 f0 ls. induction ls as [|l ls IH] using rev_ind; [split; reflexivity|].
-  rewrite run_snoc. cbv zeta in IH. revert IH. generalize (run true false (i_init l0 f0) ls) as s.
-  intros s [Ha Hb]. destruct l as [|t]; [split; assumption|].
-  unfold step. destruct (t_pc (get_thr s t)) eqn:Epc; try (destruct t; cbn; split; assumption).
-  - destruct t; cbn; split; auto.
-  - destruct (i_flight s); destruct t; cbn; split; assumption.
-  - destruct t; cbn in *; [destruct (t_pc (i_b s))|destruct (t_pc (i_a s))]; cbn; split; assumption.
+  intros share l0 f0 ls. induction ls as [|l ls IH] using rev_ind; [intros [] s H; discriminate H|].
+  rewrite run_snoc. cbv zeta in IH |- *. revert IH. generalize (run true share (i_init l0 f0) ls) as s.
+  intros s IH. pose proof (IH TA) as Ia. pose proof (IH TB) as Ib. clear IH.
+  destruct s as [L F S M FL [pa ba ga sa ja] [pb bb gb sb jb] sets]. projs.
+  destruct l as [|[|]]; unfold step, arrive_lock; projs.
+  - intros []; assumption.
+  - destruct pa as [| | |v| |v|v|v| |]; projs;
+      try (destruct FL as [[|]|]; try destruct share; projs);
+      try (destruct pb as [| | |w| |w|w|w| |]; projs);
+      try (destruct M as [[|]|]; projs);
+      try (destruct (S <? v); projs); try (destruct (v <? w); projs);
+      intros []; projs; intros H; try discriminate H; auto;
+      try (specialize (Ia H); discriminate Ia); try (specialize (Ib H); discriminate Ib).
+  - destruct pb as [| | |v| |v|v|v| |]; projs;
+      try (destruct FL as [[|]|]; try destruct share; projs);
+      try (destruct pa as [| | |w| |w|w|w| |]; projs);
+      try (destruct M as [[|]|]; projs);
+      try (destruct (S <? v); projs); try (destruct (v <? w); projs);
+      intros []; projs; intros H; try discriminate H; auto;
+      try (specialize (Ia H); discriminate Ia); try (specialize (Ib H); discriminate Ib).
 Qed.
 
-Lemma read_fresh_repaired : forall l0 f0 ls, fresh (run true false (i_init l0 f0) ls) = true.
+(* joiners of an older flight fetch again: every read is fresh, on every schedule *)
+Lemma read_fresh_any : forall share l0 f0 ls, fresh (run true share (i_init l0 f0) ls) = true.
 Proof.
-  intros l0 f0 ls.
-  assert (Hinv : sinv (run true false (i_init l0 f0) ls)) by (apply run_inv; left; reflexivity).
-  destruct (no_join_without_share l0 f0 ls) as [Ha Hb]. destruct Hinv as [Ia Ib].
-  unfold fresh. rewrite (thr_fresh_of_tinv _ _ _ Ia Ha), (thr_fresh_of_tinv _ _ _ Ib Hb). reflexivity.
+  intros share l0 f0 ls. pose proof (run_inv true share l0 f0 ls) as Hinv.
+  pose proof (refetch_joined_waiting share l0 f0 ls) as Hj. cbv zeta in Hj.
+  set (s := run true share (i_init l0 f0) ls) in *.
+  assert (H : forall t, thr_fresh (get_thr s t) = true).
+  { intros t. destruct (t_joined (get_thr s t)) eqn:E.
+    - unfold thr_fresh. rewrite (Hj t E). reflexivity.
+    - apply sinv_thr_fresh; assumption. }
+  unfold fresh. change (i_a s) with (get_thr s TA). change (i_b s) with (get_thr s TB). rewrite !H. reflexivity.
 Qed.
+
+Lemma read_fresh : forall l0 f0 ls, fresh (run_code (i_init l0 f0) ls) = true.
+Proof. intros. apply read_fresh_any. Qed.
 
 (* witnesses: A = TA, B = TB *)
+(* the schedule of the former finding C18-F1: A has its revision (10) and is delayed before installing it; the leader
+   moves to 12; B fetches and installs 12; A's late install is dropped *)
 Definition w_set_race : list label :=
-  [LStep TA; LStep TA; LStep TA; LStep TA; LAdv; LAdv; LStep TB; LStep TB; LStep TB; LStep TB; LStep TB; LStep TA; LStep TB; LStep TA].
+  [LStep TA; LStep TA; LStep TA; LStep TA; LAdv; LAdv; LStep TB; LStep TB; LStep TB; LStep TB; LStep TB; LStep TB; LStep TA; LStep TB; LStep TA].
+(* C18-F3: B joins the flight A started before B began *)
 Definition w_shared_flight : list label :=
-  [LStep TA; LStep TA; LStep TA; LAdv; LAdv; LStep TB; LStep TB; LStep TA; LStep TA; LStep TA; LStep TB; LStep TB].
+  [LStep TA; LStep TA; LStep TA; LAdv; LAdv; LStep TB; LStep TB; LStep TA; LStep TA; LStep TA; LStep TA; LStep TB; LStep TB].
 
-Lemma read_fresh_refuted : exists l0 f0 ls, fresh (run_code (i_init l0 f0) ls) = false.
-Proof. exists 10, 5, w_set_race. vm_compute. reflexivity. Qed.
+(* without the re-fetch the shared flight serves a stale read (the former finding C18-F3) *)
+Lemma shared_flight_was_stale : fresh (run false true (i_init 10 5) w_shared_flight) = false.
+Proof. vm_compute. reflexivity. Qed.
 
-Lemma set_race_witness :
+Lemma set_race_harmless :
   let s := run_code (i_init 10 5) w_set_race in
-  obs_of_thr (i_b s) = TObs true 12 10 false /\ lowering_set s = true /\ some_joined s = false.
+  obs_of_thr (i_a s) = TObs true 10 12 false /\ obs_of_thr (i_b s) = TObs true 12 12 false
+  /\ map (fun x => match x with (_, before, v) => (before, v) end) (i_sets s) = [(5, 12)].
 Proof. vm_compute. repeat split. Qed.
 
-Lemma shared_flight_witness :
-  let s := run_code (i_init 10 5) w_shared_flight in
-  obs_of_thr (i_b s) = TObs true 12 10 true /\ lowering_set s = false.
+Lemma shared_flight_refetched :
+  let s := run_code (i_init 10 5) [LStep TA; LStep TA; LStep TA; LAdv; LAdv; LStep TB; LStep TB; LStep TA; LStep TA; LStep TB; LStep TB; LStep TB; LStep TA; LStep TB; LStep TB; LStep TA; LStep TB] in
+  obs_of_thr (i_a s) = TObs true 10 12 false /\ obs_of_thr (i_b s) = TObs true 12 12 false.
 Proof. vm_compute. repeat split. Qed.
-
-(* each half of the repair alone is not enough *)
-Lemma monotone_set_alone_refuted : exists ls, fresh (run true true (i_init 10 5) ls) = false.
-Proof. exists w_shared_flight. vm_compute. reflexivity. Qed.
-Lemma private_fetch_alone_refuted : exists ls, fresh (run false false (i_init 10 5) ls) = false.
-Proof. exists w_set_race. vm_compute. reflexivity. Qed.
 
 (* ------------------------------------------------------------------ oracle soundness *)
 
@@ -271,48 +264,21 @@ Proof.
 Qed.
 
 Lemma c18_sched_sound : forall l0 f0 ls a b sets,
-  c18_check (SchedCase l0 f0 ls a b sets) = true ->
-  match c18_oracle (SchedCase l0 f0 ls a b sets) with
-  | None => True
-  | Some c => (c = F_set_race /\ lowering_set (run_code (i_init l0 f0) ls) = true)
-              \/ (c = F_shared_flight /\ some_joined (run_code (i_init l0 f0) ls) = true)
-  end.
+  c18_check (SchedCase l0 f0 ls a b sets) = true -> c18_oracle (SchedCase l0 f0 ls a b sets) = None.
 Proof.
   intros l0 f0 ls a b sets H. cbn in H.
   apply andb_true_iff in H; destruct H as [H Hs]. apply andb_true_iff in H; destruct H as [Ha Hb].
-  set (s := run_code (i_init l0 f0) ls) in *.
-  assert (Hsets : existsb (fun x : N * N => snd x <? fst x) sets = lowering_set s).
-  { unfold lowering_set. revert Hs. generalize (i_sets s) as l. intros l. revert sets.
-    induction l as [|[[t bf] v] l IH]; intros [|[bf' v'] sets]; cbn; try discriminate; auto.
-    intros H. apply andb_true_iff in H; destruct H as [H1 H2].
-    unfold pair_eqb in H1; cbn in H1. apply andb_true_iff in H1; destruct H1 as [E1 E2].
-    apply N.eqb_eq in E1; apply N.eqb_eq in E2; subst. rewrite (IH _ H2). reflexivity. }
-  cbn. rewrite Hsets.
-  destruct (tobs_fresh a && tobs_fresh b) eqn:Ef; [exact I|].
-  destruct (lowering_set s) eqn:El; [left; split; reflexivity|].
-  (* no lowering set: a stale thread must have joined *)
-  assert (Hfa : t_joined (i_a s) = false -> tobs_fresh a = true).
-  { intros Hj. pose proof (read_fresh_except l0 f0 ls TA El Hj) as Hf. cbn in Hf. fold s in Hf.
-    unfold thr_fresh in Hf. unfold obs_of_thr in Ha. destruct (t_pc (i_a s)); destruct a as [d bg sc j]; cbn in Ha |- *;
+  pose proof (read_fresh l0 f0 ls) as Hf. set (s := run_code (i_init l0 f0) ls) in *.
+  unfold fresh in Hf. apply andb_true_iff in Hf. destruct Hf as [Fa Fb].
+  assert (Hfa : tobs_fresh a = true).
+  { unfold thr_fresh in Fa. unfold obs_of_thr in Ha. destruct (t_pc (i_a s)); destruct a as [d bg sc j]; cbn in Ha |- *;
       repeat (apply andb_true_iff in Ha; destruct Ha as [Ha ?]); destruct d; try discriminate; try reflexivity.
-    apply N.eqb_eq in H0; apply N.eqb_eq in H1; subst. exact Hf. }
-  assert (Hfb : t_joined (i_b s) = false -> tobs_fresh b = true).
-  { intros Hj. pose proof (read_fresh_except l0 f0 ls TB El Hj) as Hf. cbn in Hf. fold s in Hf.
-    unfold thr_fresh in Hf. unfold obs_of_thr in Hb. destruct (t_pc (i_b s)); destruct b as [d bg sc j]; cbn in Hb |- *;
+    apply N.eqb_eq in H0; apply N.eqb_eq in H1; subst. exact Fa. }
+  assert (Hfb : tobs_fresh b = true).
+  { unfold thr_fresh in Fb. unfold obs_of_thr in Hb. destruct (t_pc (i_b s)); destruct b as [d bg sc j]; cbn in Hb |- *;
       repeat (apply andb_true_iff in Hb; destruct Hb as [Hb ?]); destruct d; try discriminate; try reflexivity.
-    apply N.eqb_eq in H0; apply N.eqb_eq in H1; subst. exact Hf. }
-  assert (Hja : tobs_joined a = t_joined (i_a s)).
-  { unfold obs_of_thr in Ha. destruct (t_pc (i_a s)); destruct a as [d bg sc j]; cbn in Ha |- *;
-      repeat (apply andb_true_iff in Ha; destruct Ha as [Ha ?]); symmetry; apply Bool.eqb_prop; assumption. }
-  assert (Hjb : tobs_joined b = t_joined (i_b s)).
-  { unfold obs_of_thr in Hb. destruct (t_pc (i_b s)); destruct b as [d bg sc j]; cbn in Hb |- *;
-      repeat (apply andb_true_iff in Hb; destruct Hb as [Hb ?]); symmetry; apply Bool.eqb_prop; assumption. }
-  rewrite Hja, Hjb. unfold some_joined.
-  destruct (t_joined (i_a s)) eqn:Ja, (t_joined (i_b s)) eqn:Jb; cbn.
-  - destruct (tobs_fresh a), (tobs_fresh b); cbn in *; try discriminate; right; split; reflexivity.
-  - rewrite (Hfb eq_refl) in *. destruct (tobs_fresh a); cbn in *; try discriminate. right; split; reflexivity.
-  - rewrite (Hfa eq_refl) in *. destruct (tobs_fresh b); cbn in *; try discriminate. right; split; reflexivity.
-  - rewrite (Hfa eq_refl), (Hfb eq_refl) in Ef. discriminate.
+    apply N.eqb_eq in H0; apply N.eqb_eq in H1; subst. exact Fb. }
+  cbn. rewrite Hfa, Hfb. reflexivity.
 Qed.
 
 (* overlapping reads: a failed fetch (incl. an unparsable answer) leaves the other read alone *)
